@@ -153,6 +153,7 @@ NODE_S = Atom("NODE", "SRC")
 NODE_T = Atom("NODE", "TGT")
 IDX = Atom("IDX")
 EID = Atom("EID")
+POS = Atom("POS")  # position in a listing (enumerate index): a number, but never an edge id (ids are not reused after removals)
 VID = Atom("VID")
 TIME = Atom("TIME")
 LAYER = Atom("LAYER")
@@ -170,7 +171,7 @@ EMPTY = Atom("EMPTY")  # element kind of an empty literal container: joins away,
 
 STRONG = {"NODE", "IDX", "EID", "VID", "TIME", "LAYER", "WEIGHT", "META", "SIZE", "ORDER", "RNG", "MATRIX"}
 # weak numeric / string literals are acceptable wherever a number-like / label-like strong kind is expected
-NUM_OK = {"WEIGHT", "TIME", "IDX", "SIZE", "ORDER", "NUM"}
+NUM_OK = {"WEIGHT", "TIME", "IDX", "SIZE", "ORDER", "NUM", "POS"}
 
 
 def union(*ks: K) -> K:
@@ -452,6 +453,10 @@ def fits(actual: K, expected: K) -> Verdict:
                 return OK
             if actual.name == "NONE" or expected.name == "NONE":
                 return UNKNOWN
+            if {actual.name, expected.name} == {"POS", "EID"}:
+                return Mismatch("a position in a listing where an edge id is expected (or the reverse): ids are handed out by a counter that is never rewound, so after a removal positions and ids differ")
+            if "POS" in (actual.name, expected.name):
+                return OK if {actual.name, expected.name} <= NUM_OK else UNKNOWN
             if actual.name == "NUM":
                 return OK if expected.name in NUM_OK else UNKNOWN
             if expected.name == "NUM":
